@@ -56,14 +56,46 @@ pub struct Outcome {
     pub polls: u64,
 }
 
+thread_local! {
+    /// the engine object kept between searches while a position is worked on (the plugin keeps
+    /// one for a whole game); with KEEP off every search gets a fresh engine
+    static SHARED: std::cell::RefCell<Option<Engine>> = const { std::cell::RefCell::new(None) };
+    static KEEP: Cell<bool> = const { Cell::new(false) };
+}
+
+/// while alive, all searches of this thread go through one engine object
+struct SharedEngine;
+impl SharedEngine {
+    fn new() -> SharedEngine {
+        SHARED.with(|c| *c.borrow_mut() = None);
+        KEEP.with(|c| c.set(true));
+        SharedEngine
+    }
+}
+impl Drop for SharedEngine {
+    fn drop(&mut self) {
+        KEEP.with(|c| c.set(false));
+        SHARED.with(|c| {
+            if let Ok(mut slot) = c.try_borrow_mut() {
+                *slot = None;
+            }
+        });
+    }
+}
+
 pub fn search(board: &Board, tf: &ThreeFold, k: u64, positional: bool) -> Outcome {
     let polls = Cell::new(0u64);
     let t = SimTimeout { polls: &polls, k, limit: k.saturating_add(SLACK) };
-    let mut e = Engine::default();
+    let keep = KEEP.with(|c| c.get());
+    let mut e = if keep { SHARED.with(|c| c.borrow_mut().take()).unwrap_or_default() } else { Engine::default() };
     e.positional = positional;
     e.max_depth = SENTINEL;
     let (mv, score) = op(Op::Search, || e.search(board, tf, t));
-    Outcome { mv: mv.map(sut::unmv), score, completed: if e.max_depth == SENTINEL { None } else { Some(e.max_depth) }, polls: polls.get() }
+    let out = Outcome { mv: mv.map(sut::unmv), score, completed: if e.max_depth == SENTINEL { None } else { Some(e.max_depth) }, polls: polls.get() };
+    if keep {
+        SHARED.with(|c| *c.borrow_mut() = Some(e));
+    }
+    out
 }
 
 pub fn score_text(s: Score) -> String {
@@ -372,6 +404,37 @@ pub fn at_position(ctx: &mut Ctx, s: &Session, l1: &[Mv], game_tf: &ThreeFold) -
         }
     }
     let (tf, use_hist) = if heavy_used { (&heavy, true) } else { (tf, use_hist) };
+    // one engine object for every search at this position (as the plugin does for a whole
+    // game), or a fresh one per search
+    let _shared = if mode != Prop::C13 && ctx.tape.choose(2) == 1 {
+        ctx.stats.bump("c11.positions-with-one-engine-object");
+        Some(SharedEngine::new())
+    } else {
+        None
+    };
+    // F-SCHED on one thread: a search on a sibling position (same placement, other side to
+    // move) runs first; nothing it leaves behind may change what is promised for this one
+    if mode != Prop::C13 && ctx.tape.choose(8) == 7 {
+        let mut t = s.model.clone();
+        t.stm ^= 1;
+        t.ep = None;
+        if t.validity().is_ok() {
+            if let Ok(tb) = op(Op::Parse, || sut::to_board(&t)) {
+                ctx.stats.bump("fault.sched.interleaved-sibling-search");
+                let k = 8 + ctx.tape.log_uniform(3000) as u64;
+                let o = search(&tb, &empty, k, ctx.tape.choose(2) == 1);
+                ctx.stats.add("sim.clock-ticks", o.polls);
+                if let Some(m) = o.mv {
+                    let mut lt = t.legal_moves();
+                    lt.sort();
+                    // (a disputed move list is C01's business, not this probe's)
+                    if op(Op::Generate, || sut::legals_sorted(&tb)) == lt && !lt.contains(&m) {
+                        return ctx.fail(Prop::C11, "search.illegal-move", "root=sibling".into(), format!("search returned {} which is illegal in {}", m.text(), t.fen()));
+                    }
+                }
+            }
+        }
+    }
     match mode {
         Prop::C11 => enumerate_expiry(ctx, s, l1, tf, use_hist),
         Prop::C12 => mate_in_one(ctx, s, l1, tf),
